@@ -34,6 +34,20 @@
 (*                         set_quadratures replaced the nodes)             *)
 (*   "mode_memoised"       the opacity branch is looked up at the first    *)
 (*                         evaluation only                                 *)
+(*   "profiles_once"       (round 6) the per-contribution routes           *)
+(*                         model_contrib() / model_full_contrib() take the *)
+(*                         layer profiles (altitude, density, chemistry)   *)
+(*                         as "already available once the model has been   *)
+(*                         run": they integrate with the profiles of the   *)
+(*                         previous evaluation / of build()                *)
+(* Round 6 -- ROUTE x HISTORY.  The public evaluation routes are model(),  *)
+(* partial_model(), model_contrib() and model_full_contrib(): all four are *)
+(* entries of Eval.  The layer profiles depend on the planet (gravity ->   *)
+(* scale height), on the temperature profile and on the mixing ratios      *)
+(* (mean molecular weight, absorber column): "tp" and "mix" (fitting       *)
+(* parameters, written through model[...]) are settings next to "rp", and  *)
+(* eff.prof is the (rp, tp, mix) the profiles were last initialised for.   *)
+(* PhysSet bounds the settings a configuration walks over.                 *)
 (* Clause: EvalUsesCurrent -- every evaluation integrates with cfg.        *)
 (* The numerical oracles are bound in harness/fx_emsettings.py: at every   *)
 (* Eval the long-lived object equals a freshly built model of cfg, and     *)
@@ -46,7 +60,8 @@ CONSTANTS NV,        \* values 0..NV-1 of each physical setting (planet radius, 
           NR,        \* user rules 1..NR handed to set_quadratures
           Modes,     \* subset of {"xsec", "ktables"}
           RpRoutes,  \* public routes to the planet radius: "param" (model['planet_radius']), "attr" (planet.radius = ..)
-          Entries,   \* entry points an evaluation goes through: "model", "partial"
+          Entries,   \* entry points an evaluation goes through: "model", "partial", "contrib", "full_contrib"
+          PhysSet,   \* the physical settings walked over: subset of Phys
           Record,    \* TRUE: bounded walks are recorded (export); FALSE: the whole state graph, nothing recorded
           MaxSets,   \* recorded walks: number of setting changes
           SVariant
@@ -56,13 +71,17 @@ svars == <<cfg, eff, memo, stale, walk, start, nsets>>
 Gauss(n) == <<"gauss", n>>
 User(r)  == <<"user", r>>
 Quads == {Gauss(n) : n \in 1..NC} \cup {User(r) : r \in 1..NR}
-Phys == {"rp", "ts", "dist"}
+Phys == {"rp", "ts", "dist", "tp", "mix"}
+ContribEntries == {"contrib", "full_contrib"}
+ASSUME PhysSet \subseteq Phys /\ Entries \subseteq {"model", "partial"} \cup ContribEntries
+\* what the layer profiles (altitude / density / chemistry) are a function of
+ProfOf(c) == <<c.rp, c.tp, c.mix>>
 
 \* a user rule is installed on a model constructed with the first count
 CountAtBuild(q) == IF q[1] = "gauss" THEN q[2] ELSE 1
 
-SInit == /\ cfg \in [rp : {0}, ts : {0}, dist : {0}, quad : Quads, mode : Modes]
-         /\ eff = [rp |-> cfg.rp, quad |-> cfg.quad]
+SInit == /\ cfg \in [rp : {0}, ts : {0}, dist : {0}, tp : {0}, mix : {0}, quad : Quads, mode : Modes]
+         /\ eff = [rp |-> cfg.rp, quad |-> cfg.quad, prof |-> ProfOf(cfg)]       \* build() initialises the profiles
          /\ memo = [ng |-> CountAtBuild(cfg.quad), mode |-> "none"]
          /\ stale = FALSE /\ walk = <<>> /\ start = cfg /\ nsets = 0
 
@@ -101,17 +120,21 @@ SetMode(m) ==
 
 \* the settings the evaluation integrates with
 UsedMode == IF SVariant = "mode_memoised" /\ memo.mode # "none" THEN memo.mode ELSE cfg.mode
-Used == [rp |-> eff.rp, ts |-> cfg.ts, dist |-> cfg.dist, quad |-> eff.quad, mode |-> UsedMode]
+\* every route initialises the profiles for the current settings before it integrates
+UsedProf(en) == IF SVariant = "profiles_once" /\ en \in ContribEntries THEN eff.prof ELSE ProfOf(cfg)
+Used(en) == [rp |-> eff.rp, ts |-> cfg.ts, dist |-> cfg.dist, tp |-> cfg.tp, mix |-> cfg.mix, quad |-> eff.quad, mode |-> UsedMode]
 
 Eval(en) ==
     /\ Record => (walk # <<>> /\ walk[Len(walk)][1] # "eval")
-    /\ stale' = (Used # cfg)
+    /\ stale' = (Used(en) # cfg \/ UsedProf(en) # ProfOf(cfg))
+    /\ eff' = [eff EXCEPT !.prof = UsedProf(en)]
     /\ memo' = [memo EXCEPT !.mode = IF memo.mode = "none" THEN cfg.mode ELSE memo.mode]
     /\ Rec(<<"eval", en, "", 0>>)
-    /\ UNCHANGED <<cfg, eff, start>>
+    /\ UNCHANGED <<cfg, start>>
 
-SNext == \/ \E name \in Phys, v \in 0..(NV - 1) :
-               \E route \in (IF name = "rp" THEN RpRoutes ELSE {"attr"}) : SetPhys(name, route, v)
+SNext == \/ \E name \in PhysSet, v \in 0..(NV - 1) :
+               \E route \in (IF name = "rp" THEN RpRoutes ELSE IF name \in {"tp", "mix"} THEN {"param"} ELSE {"attr"}) :
+                   SetPhys(name, route, v)
          \/ \E n \in 1..NC : SetNumGauss(n)
          \/ \E r \in 1..NR : SetQuadratures(r)
          \/ \E m \in Modes : SetMode(m)
@@ -122,6 +145,8 @@ SSpec == SInit /\ [][SNext]_svars
 EvalUsesCurrent == ~stale
 \* the frame of the quadrature routes: the rule in force is the one asked for last, through whichever route
 RuleIsLastAskedFor == (SVariant = "code") => eff.quad = cfg.quad
+\* the frame of the profiles: after any evaluation in the code reading they are those of the current settings
+ProfilesFollowEval == (SVariant = "code" /\ Record /\ walk # <<>> /\ walk[Len(walk)][1] = "eval") => eff.prof = ProfOf(cfg)
 TypeOk == /\ cfg.quad \in Quads /\ eff.quad \in Quads /\ memo.ng \in 1..NC
           /\ memo.mode \in Modes \cup {"none"} /\ nsets \in 0..MaxSets
 =============================================================================
